@@ -14,6 +14,14 @@ OUT = os.environ.get("SEED_OUT", "/tmp/seed/out")
 WT = "/tmp/seedwt"
 VERIF = "/verif"
 ENV = dict(os.environ, GOFLAGS="-mod=mod", GOPROXY="off", GOSUMDB="off", GOTOOLCHAIN="local")
+# CONFIRM_ISOLATED=<dir>: the property's check runs in a copy of /verif (made at start) against a scratch worktree of
+# /repo, both under <dir> and removed at the end: /repo, /verif/.build and /verif/evidence are left alone, so that work in
+# /verif can go on meanwhile.  Only /verif/seeded/<id>/ is written.
+ISO = os.environ.get("CONFIRM_ISOLATED", "")
+CHECK_VERIF = os.path.join(ISO, "verif") if ISO else VERIF
+CHECK_REPO = os.path.join(ISO, "repo") if ISO else "/repo"
+if ISO:
+    ENV["VERIF_REPO"] = CHECK_REPO
 
 
 def sh(cmd, cwd=None, timeout=1500):
@@ -60,19 +68,19 @@ def confirm(prop, v):
         shutil.rmtree(wt, ignore_errors=True)
     # the property's own check against the change, on /repo itself
     caught = {"ran": "bin/check %s --tier quick --seed 1" % prop, "violation": False, "line": ""}
-    rc, out = sh("git -C /repo status --porcelain")
-    assert out.strip() == "", "/repo is not clean: " + out
-    rc, out = sh("git -C /repo apply %s" % patch)
+    rc, out = sh("git -C %s status --porcelain" % CHECK_REPO)
+    assert out.strip() == "", "%s is not clean: " % CHECK_REPO + out
+    rc, out = sh("git -C %s apply %s" % (CHECK_REPO, patch))
     try:
         if rc == 0:
-            rc, out = sh("bin/check %s --tier quick --seed 1" % prop, cwd=VERIF, timeout=3000)
+            rc, out = sh("bin/check %s --tier quick --seed 1" % prop, cwd=CHECK_VERIF, timeout=3000)
             lines = [l for l in out.splitlines() if l.startswith("VIOLATION") or l.startswith("  spec:") or l.startswith("  correspondence") or l.startswith("FAIL") or l.startswith("ok ")]
             caught["violation"] = any(l.startswith("VIOLATION property=%s" % prop) for l in lines)
             caught["no_failing_input_found"] = any("no-failing-input-found" in l for l in lines)
             caught["line"] = " / ".join(l.strip() for l in lines)[:700]
     finally:
-        sh("git -C /repo checkout -- .")
-        rc2, out2 = sh("git -C /repo status --porcelain")
+        sh("git -C %s checkout -- ." % CHECK_REPO)
+        rc2, out2 = sh("git -C %s status --porcelain" % CHECK_REPO)
         assert out2.strip() == "", out2
     ok = all(res.values())
     dst = os.path.join(VERIF, "seeded", "%s-%s" % (prop, v))
@@ -95,6 +103,24 @@ def confirm(prop, v):
 
 def main():
     props = sys.argv[1:] or sorted(os.listdir(OUT))
+    if ISO:
+        sh("git -C /repo worktree remove --force %s" % CHECK_REPO)
+        shutil.rmtree(ISO, ignore_errors=True)
+        os.makedirs(ISO)
+        rc, out = sh("git -C /repo worktree add --detach %s HEAD" % CHECK_REPO)
+        assert rc == 0, out
+        rc, out = sh("rsync -a --exclude .git /verif/ %s/" % CHECK_VERIF)
+        assert rc == 0, out
+    try:
+        run_all(props)
+    finally:
+        if ISO:
+            sh("git -C /repo worktree remove --force %s" % CHECK_REPO)
+            shutil.rmtree(ISO, ignore_errors=True)
+            sh("git -C /repo worktree prune")
+
+
+def run_all(props):
     for prop in props:
         for v in sorted(os.listdir(os.path.join(OUT, prop))):
             if os.path.exists(os.path.join(OUT, prop, v, "patch.diff")):
@@ -102,7 +128,7 @@ def main():
                     confirm(prop, v)
                 except Exception as e:
                     print("%s-%s ERROR %s" % (prop, v, e), flush=True)
-                    sh("git -C /repo checkout -- .")
+                    sh("git -C %s checkout -- ." % CHECK_REPO)
 
 
 if __name__ == "__main__":
